@@ -503,6 +503,28 @@ def _atom(t, env, W):
     r = _prim_atom(name, label, t, env, W)
     if r is not None:
         return r
+    if name in ("cast_up", "cast_down") and m.group(2):
+        # same-digit widening / narrowing terminals: copy the low digits, fill the rest with the given digit
+        adt = _adt_of_label(label)
+        args = [ev(a, env, W) for a in t[2]]
+        g = [x.strip() for x in m.group(2)[3:-1].split(",")]
+        if adt in UNSIGNED and args and isinstance(args[0], BN) and args[0].adt == adt and len(g) == 2:
+            tgt_n = W.n if g[1] == "N" else (W.m if g[1] == "M" else None)
+            if tgt_n is None:
+                return OPAQUE
+            db = DIGIT_BITS[DIGIT[adt]]
+            src_bits = W.bits_of(args[0])
+            x = args[0].v & ((1 << src_bits) - 1)
+            if name == "cast_up":
+                if len(args) != 2 or not isinstance(args[1], PI) or tgt_n * db < src_bits:
+                    return OPAQUE
+                fill = args[1].v & ((1 << db) - 1)
+                for i in range(src_bits // db, tgt_n):
+                    x |= fill << (db * i)
+            else:
+                x &= (1 << (tgt_n * db)) - 1
+            return W.wrap(adt, x, tgt_n)
+        return OPAQUE
     if name == "unchecked_shr_pad_internal" and m.group(2):
         return _arith(name, label, [ev(a, env, W) for a in t[2]], W, m.group(2))
     if name in ("checked_sub", "checked_add") and re.match(r"^(u8|u16|u32|u64|usize)::", label):
